@@ -73,7 +73,9 @@ def run_tlc(module, cfg=None, env=None, wd=None, workers=None, dump=True,
     tag = "%s_%d" % (module, int(time.time() * 1000) % 100000000)
     meta = os.path.join(wd, "meta_" + tag)
     dumpf = os.path.join(wd, "dump_" + tag)
-    cmd = ["java", "-Xss512m", "-Xmx" + heap, "-XX:+UseParallelGC", "-cp", JAR, "tlc2.TLC",
+    jtmp = os.path.join(wd, "jtmp_" + tag)          # TLC leaves a tlc-* directory per run in java.io.tmpdir: keep it out of /tmp
+    os.makedirs(jtmp, exist_ok=True)
+    cmd = ["java", "-Xss512m", "-Xmx" + heap, "-XX:+UseParallelGC", "-Djava.io.tmpdir=" + jtmp, "-cp", JAR, "tlc2.TLC",
            "-workers", str(workers or NCPU), "-metadir", meta, "-noGenerateSpecTE"]
     if simulate:
         cmd += ["-simulate", simulate]
@@ -91,6 +93,9 @@ def run_tlc(module, cfg=None, env=None, wd=None, workers=None, dump=True,
         p = subprocess.run(cmd, cwd=SPEC, env=e, capture_output=True, text=True, timeout=timeout)
     except subprocess.TimeoutExpired:
         raise MachineryError("TLC timeout on %s" % module)
+    finally:
+        import shutil
+        shutil.rmtree(jtmp, ignore_errors=True)
     r = TlcResult()
     r.wall = time.time() - t0
     r.out = p.stdout + p.stderr
